@@ -50,6 +50,17 @@ CLAIMED = {
         note="Statistical part detects distributional errors of a few percent (KS at n=20k: sup-distance ~0.015), not smaller; "
              "exact part has tolerance 1e-8 (1e-6 through eigendecompositions / regularised Cholesky).",
         design="3/C05"),
+    "C06": dict(
+        technique="Hypothesis property tests with a scripted standard-normal stream: the new state is read as an affine map of the perturbation (zero/unit vectors) and compared with the closed-form Gaussian posterior; basis probing of the stacked operator",
+        text="For generated linear-Gaussian posteriors (1-3 likelihoods, every Gaussian input form for noise and prior, non-zero prior mean, "
+             "GMRF priors, matrix- and function-backed models, experimental and legacy samplers incl. the 5-tuple input) one RTO step "
+             "with np.random.randn scripted gives x_new = a + B e; a must be the closed-form posterior mean, B B^T the posterior "
+             "covariance, the map affine and independent of the current state, and the stacked operator's adjoint action the exact "
+             "transpose of its forward action. For UGLA the same reading must give mean and covariance of the documented local Gaussian "
+             "A^T Gamma^-1 A + (1/scale) D^T W_k D at the current state.",
+        note="Inner CGLS run with tol 1e-14 and maxit 20n+100 (convergence itself is C16's subject). UGLA with non-zero LMRF location is a "
+             "recorded finding (excluded, counted).",
+        design="3/C06"),
     "C07": dict(
         technique="Hypothesis property tests: basis probing of forward/adjoint/get_matrix/T (exact decision of a linear identity) + inner-product identity",
         text="For each generated LinearModel (dense/sparse matrix or function pair, generated domain/range geometries) and each "
